@@ -28,6 +28,7 @@ import NemoVerif.Lemmas.Layout
 import NemoVerif.Lemmas.NumberedLines
 import NemoVerif.Lemmas.NumberedScale
 import NemoVerif.Lemmas.PreExpand
+import NemoVerif.Lemmas.TextLayout
 import NemoVerif.Models.ErrWrap
 
 namespace NemoVerif.C13
@@ -148,6 +149,111 @@ example : layoutE pinnedCfg (scaleP 0 false [.tok "_FLOW" "flow", .nl false, .ws
     layoutE pinnedCfg [.tok "_FLOW" "flow", .nl false, .ws .sp, .tok "NAME" "b", .nl false] := by
   simp [layoutE, layout, scaleP, go, flush, handleNL, bump, pinnedCfg, St.init, width, top, popWhile, finalDedents, Except.bind, Except.map, erase]
 
+/-! ## Colang 2.x layout, stated for SOURCE TEXT (characters), the tokenizer of body terminals being an oracle
+
+  `TextLayout.seg o` is the character-level scanner (`_NEWLINE` runs, blanks, `COMMENT`, CRLF concretely; body terminals by the
+  oracle `o : remaining text → Option (type, length)`), `lexLayout c o text` = scanner, then lexer layout rules + indenter.
+  Hypotheses of the theorems below, all about the oracle (= the real lexer's regex matching, tied by correspondence:
+  `C13.textseg` vs the real lexer's segmentation on every 2.x case, original and edited text):
+    * `hE` / `hO`: the part of the text in front of the edit (`pre`) is tokenized in the same way in the edited and in the original
+      text, up to a token boundary (`skip = 0`) — the edit does not reach back into a token (`and` + blank → `_AND`, an open string);
+    * `ho…`: no body terminal claims the line break at the edit (`_AND` / `_OR` absorb the line break in front of a continuation
+      line — that case is inside a token, outside these theorems);
+    * `NoBlankStart` / `NoHashStart`: no body terminal begins with a blank / with `#` (checked by the translator on the first-character
+      sets of all terminals of colang.lark). -/
+
+open NemoVerif.TextLayout in
+/-- Source text: a blank line (any blanks, LF or CRLF, after a line ending in LF or CRLF) inserted where a line break is. -/
+theorem text_layout_blank (c : Cfg) (o : Oracle) (pre post : TextLayout.Str) (cr1 cr2 cr3 : Bool) (blank : List Ws)
+    (P : List Piece) (b : Bool)
+    (hE : segPre o false 0 pre (eol cr1 ++ (wsChars blank ++ (eol cr2 ++ post))) = .ok (P, b, 0))
+    (hO : segPre o false 0 pre (eol cr3 ++ post) = .ok (P, b, 0))
+    (hoE : b = false → o (eol cr1 ++ (wsChars blank ++ (eol cr2 ++ post))) = none)
+    (hoO : b = false → o (eol cr3 ++ post) = none) :
+    lexLayout c o (pre ++ (eol cr1 ++ (wsChars blank ++ (eol cr2 ++ post)))) = lexLayout c o (pre ++ (eol cr3 ++ post)) := by
+  unfold lexLayout
+  rw [seg_append, seg_append, hE, hO]
+  simp only [glue]
+  have hb : ∀ (cr : Bool) (s : TextLayout.Str), (b = false → o (eol cr ++ s) = none) →
+      seg o b 0 (eol cr ++ s) = (seg o true 0 s).map (.nl cr :: ·) := by
+    intro cr s h
+    cases b with
+    | true => exact seg_run_eol o cr s
+    | false => exact seg_start_eol o cr s (h rfl)
+  rw [hb cr1 _ hoE, hb cr3 _ hoO, seg_run_ws, seg_run_eol]
+  cases seg o true 0 post with
+  | error e => rfl
+  | ok R =>
+    simp only [Except.map, Except.bind]
+    rw [layout_blank, layout_nl_flag c P R cr2 cr3]
+
+open NemoVerif.TextLayout in
+/-- Source text: trailing blanks that the lexer ignores, before a line break. -/
+theorem text_layout_trailing (c : Cfg) (o : Oracle) (hnb : NoBlankStart o) (pre post : TextLayout.Str) (cr : Bool) (trail : List Ws)
+    (ht : ∀ w ∈ trail, c.ign w = true) (P : List Piece)
+    (hE : segPre o false 0 pre (wsChars trail ++ (eol cr ++ post)) = .ok (P, false, 0))
+    (hO : segPre o false 0 pre (eol cr ++ post) = .ok (P, false, 0))
+    (ho : o (eol cr ++ post) = none) :
+    lexLayout c o (pre ++ (wsChars trail ++ (eol cr ++ post))) = lexLayout c o (pre ++ (eol cr ++ post)) := by
+  unfold lexLayout
+  rw [seg_append, seg_append, hE, hO]
+  simp only [glue]
+  rw [seg_start_ws o hnb, seg_start_eol o cr post ho]
+  cases seg o true 0 post with
+  | error e => rfl
+  | ok R =>
+    simp only [Except.map, Except.bind]
+    exact layout_trailing c P R cr trail ht
+
+open NemoVerif.TextLayout in
+/-- Source text: an end-of-line comment (`#` + anything but a line break) after the last token of a line, ignored blanks in between. -/
+theorem text_layout_comment_eol (c : Cfg) (o : Oracle) (hnb : NoBlankStart o) (hnh : NoHashStart o) (pre post cmt : TextLayout.Str)
+    (hc : ∀ ch ∈ cmt, ch ≠ '\n') (gap : List Ws) (hg : ∀ w ∈ gap, c.ign w = true) (P : List Piece) (ty v : String)
+    (hE : segPre o false 0 pre (wsChars gap ++ ('#' :: cmt ++ '\n' :: post)) = .ok (P ++ [.tok ty v], false, 0))
+    (hO : segPre o false 0 pre ('\n' :: post) = .ok (P ++ [.tok ty v], false, 0)) :
+    lexLayout c o (pre ++ (wsChars gap ++ ('#' :: cmt ++ '\n' :: post))) = lexLayout c o (pre ++ '\n' :: post) := by
+  unfold lexLayout
+  rw [seg_append, seg_append, hE, hO]
+  simp only [glue]
+  rw [seg_start_ws o hnb, seg_start_comment o hnh cmt post hc]
+  -- in the original text the blanks of `gap` are not there at all: `layout_comment_eol` + `layout_trailing`-style absorption
+  cases seg o false 0 ('\n' :: post) with
+  | error e => rfl
+  | ok R =>
+    simp only [Except.map, Except.bind]
+    have h1 := layout_comment_eol c P R ty v gap hg (String.ofList ('#' :: cmt))
+    have h2 : layout c (P ++ .tok ty v :: (wsPieces gap ++ R)) = layout c (P ++ .tok ty v :: R) := by
+      unfold layout
+      apply go_congr
+      intro rs st
+      simp only [go, go_ign_ws c gap hg]
+    simpa [List.append_assoc] using h1.trans h2
+
+open NemoVerif.TextLayout in
+example : NoBlankStart toyOracle ∧ NoHashStart toyOracle := by
+  constructor
+  · intro w t; cases w <;> rfl
+  · intro t; rfl
+
+open NemoVerif.TextLayout in
+/-- non-vacuity of `text_layout_blank` (and of `text_layout_trailing`): `a⏎·⏎a⏎` vs `a⏎a⏎` with the toy tokenizer -/
+example : segPre toyOracle false 0 ['a'] (eol false ++ (wsChars [.sp] ++ (eol false ++ ['a', '\n']))) = .ok ([.tok "NAME" "a"], false, 0) ∧
+    segPre toyOracle false 0 ['a'] (eol false ++ ['a', '\n']) = .ok ([.tok "NAME" "a"], false, 0) ∧
+    segPre toyOracle false 0 ['a'] (wsChars [.sp] ++ (eol false ++ ['a', '\n'])) = .ok ([.tok "NAME" "a"], false, 0) ∧
+    toyOracle (eol false ++ (wsChars [.sp] ++ (eol false ++ ['a', '\n']))) = none ∧ toyOracle (eol false ++ ['a', '\n']) = none := by
+  refine ⟨by rfl, by rfl, by rfl, by rfl, by rfl⟩
+
+open NemoVerif.TextLayout in
+/-- non-vacuity of `text_layout_comment_eol`: `a·#c⏎` vs `a⏎` -/
+example : segPre toyOracle false 0 ['a'] (wsChars [.sp] ++ ('#' :: ['c'] ++ '\n' :: [])) = .ok ([] ++ [.tok "NAME" "a"], false, 0) ∧
+    segPre toyOracle false 0 ['a'] ('\n' :: []) = .ok ([] ++ [.tok "NAME" "a"], false, 0) := by
+  refine ⟨by rfl, by rfl⟩
+
+open NemoVerif.TextLayout in
+/-- sanity: the whole character-level pipeline on `a⏎·⏎a⏎` -/
+example : lexLayout pinnedCfg toyOracle ("a\n \na\n".toList) = .ok [.body "NAME" "a", .nl [], .body "NAME" "a", .nl []] := by
+  rfl
+
 /-! ## Colang 1.0: `get_numbered_lines` -/
 
 open NemoVerif.NumberedLines in
@@ -256,6 +362,69 @@ open NemoVerif.PreExpand in
 theorem preexpand_trailing_witness :
     (preExpand [[' ', ' ', '.', '.', '.', ' ', ' ']]).length = 8 ∧ (preExpand [[' ', ' ', '.', '.', '.', ' ', ' ']]).getLast? = some [' ', ' '] := by
   decide
+
+/-! ### … composed with the line-based pre-parsing expansion: statements about the RAW FILE CONTENT
+
+  `TextLayout.source c o lines` = `_apply_pre_parsing_expansions` (on `content.split("\n")`) → `"\n".join` → `+ "\n"` (as
+  `get_parsing_tree` does) → character-level scanner → lexer layout rules + indenter.  The hypotheses speak about the tokenizer oracle on
+  the EXPANDED text (what the lexer really gets). -/
+
+open NemoVerif.TextLayout in
+/-- Raw file content: a blank line (blanks and tabs, optionally a `\r`: a CRLF file) inserted between two lines - after ANY line, be it a
+    `...` statement that is rewritten into seven lines, a docstring line, anything - does not change the token stream.
+    `hA`: the expanded text in front of the insertion point is `pre0` + LF/CRLF (i.e. there is at least one line in front). -/
+theorem source_blank_line (c : Cfg) (o : Oracle) (preL postL : List TextLayout.Str) (blank : List Ws) (cr1 cr2 : Bool)
+    (pre0 : TextLayout.Str) (P : List Piece) (b : Bool)
+    (hA : unlines (PreExpand.runPre false preL).2 = pre0 ++ eol cr1)
+    (hE : segPre o false 0 pre0 (eol cr1 ++ (wsChars blank ++ (eol cr2 ++ unlines (PreExpand.run (PreExpand.runPre false preL).1 postL)))) = .ok (P, b, 0))
+    (hO : segPre o false 0 pre0 (eol cr1 ++ unlines (PreExpand.run (PreExpand.runPre false preL).1 postL)) = .ok (P, b, 0))
+    (hoE : b = false → o (eol cr1 ++ (wsChars blank ++ (eol cr2 ++ unlines (PreExpand.run (PreExpand.runPre false preL).1 postL)))) = none)
+    (hoO : b = false → o (eol cr1 ++ unlines (PreExpand.run (PreExpand.runPre false preL).1 postL)) = none) :
+    source c o (preL ++ (wsChars blank ++ crChars cr2) :: postL) = source c o (preL ++ postL) := by
+  have hne : (PreExpand.runPre false preL).2 ≠ [] := by
+    intro h
+    rw [h] at hA
+    cases cr1 <;> simp [unlines, eol] at hA
+  have hb := preexpand_blank false preL postL (wsChars blank ++ crChars cr2) (strip_blank_line blank cr2)
+  unfold source PreExpand.preExpand
+  rw [hb.1, hb.2, joinNL_nl _ (by simp), joinNL_nl _ (by simp [hne])]
+  rw [unlines_append, unlines_append, hA]
+  simp only [unlines]
+  have := text_layout_blank c o pre0 (unlines (PreExpand.run (PreExpand.runPre false preL).1 postL)) cr1 cr2 cr1 blank P b hE hO hoE hoO
+  rw [← crChars_nl cr2] at this
+  simpa [List.append_assoc] using this
+
+
+open NemoVerif.TextLayout in
+/-- non-vacuity of `source_blank_line`: file `a⏎a` gets a blank line `·` in between (toy tokenizer). -/
+example : unlines (PreExpand.runPre false [['a']]).2 = ['a'] ++ eol false ∧
+    segPre toyOracle false 0 ['a'] (eol false ++ (wsChars [.sp] ++ (eol false ++ unlines (PreExpand.run (PreExpand.runPre false [['a']]).1 [['a']])))) = .ok ([.tok "NAME" "a"], false, 0) ∧
+    segPre toyOracle false 0 ['a'] (eol false ++ unlines (PreExpand.run (PreExpand.runPre false [['a']]).1 [['a']])) = .ok ([.tok "NAME" "a"], false, 0) := by
+  refine ⟨by rfl, by rfl, by rfl⟩
+
+open NemoVerif.TextLayout in
+/-- Raw file content: trailing blanks that the lexer ignores, appended to ANY line `l0` (in front of the `\r` of a CRLF file) - the
+    `...` statement included: the blanks end up behind the last of the lines it is rewritten to - do not change the token stream.
+    `hX`: `l0` is rewritten to the lines `X0 ++ [xl]` (every line is rewritten to at least one line). -/
+theorem source_trailing (c : Cfg) (o : Oracle) (hnb : NoBlankStart o) (preL postL : List TextLayout.Str) (l0 : TextLayout.Str)
+    (trail : List Ws) (cr : Bool) (ht : ∀ w ∈ trail, c.ign w = true)
+    (X0 : List TextLayout.Str) (xl pre post : TextLayout.Str) (P : List Piece)
+    (hX : (PreExpand.step (PreExpand.runPre false preL).1 l0).2 = X0 ++ [xl])
+    (hpre : pre = unlines (PreExpand.runPre false preL).2 ++ (unlines X0 ++ xl))
+    (hpost : post = unlines (PreExpand.run (PreExpand.step (PreExpand.runPre false preL).1 l0).1 postL))
+    (hE : segPre o false 0 pre (wsChars trail ++ (eol cr ++ post)) = .ok (P, false, 0))
+    (hO : segPre o false 0 pre (eol cr ++ post) = .ok (P, false, 0))
+    (ho : o (eol cr ++ post) = none) :
+    source c o (preL ++ (l0 ++ (wsChars trail ++ crChars cr)) :: postL) = source c o (preL ++ (l0 ++ crChars cr) :: postL) := by
+  have h1 := (preexpand_trailing false preL postL l0 (wsChars trail ++ crChars cr) (ws_line_allws trail cr)).1
+  have h2 := (preexpand_trailing false preL postL l0 (crChars cr) (by simpa [wsChars] using ws_line_allws [] cr)).1
+  unfold source PreExpand.preExpand
+  rw [h1, h2, hX, joinNL_nl _ (by simp [PreExpand.appendLast_append]), joinNL_nl _ (by simp [PreExpand.appendLast_append])]
+  simp only [unlines_append, unlines_appendLast]
+  have := text_layout_trailing c o hnb pre post cr trail ht P hE hO ho
+  rw [hpre, hpost, ← crChars_nl cr] at this
+  simpa [List.append_assoc] using this
+
 
 /-! ## Error wrapper -/
 
